@@ -1,12 +1,12 @@
 """C17 - name tables behave as dictionaries under any history (hashmap.c + macro table)."""
 import os, json, itertools, hashlib
 from .framework import *
-from . import c17_clients
+from . import c17_clients, c17_wrap
 
 PROPERTY = 'C17'
 GEN_MODULES = ['hashmap', 'lexgen']
 LEAN_TARGETS = ['ChibiVerif.Props.C17', 'ChibiVerif.Props.C17Clients', 'ChibiVerif.Props.C17Hash', 'ChibiVerif.Props.C17Bound',
-                'ChibiVerif.Findings.C17', 'ChibiVerif.Findings.C17Deep']
+                'ChibiVerif.Findings.C17', 'ChibiVerif.Findings.C17Deep', 'ChibiVerif.Findings.C17Rehash']
 PROPS_FILES = ['ChibiVerif/Props/C17.lean', 'ChibiVerif/Props/C17Clients.lean', 'ChibiVerif/Props/C17Hash.lean',
                'ChibiVerif/Props/C17Bound.lean']
 NEEDS_HOOKS = False
@@ -14,7 +14,13 @@ TRUSTED_BASE = [
     'Lean 4.33.0 kernel; axioms admitted: propext, Classical.choice, Quot.sound (audited per theorem on every run)',
     'hand-written model lean/ChibiVerif/Model/HashMap.lean of hashmap.c; tied by state-level correspondence '
     '(every bucket after every operation) through tools/harness/hashmap_harness.c, which #includes the snapshot hashmap.c',
-    'translator tools/extract/hashmap.py (INIT_SIZE, watermarks, fnv_hash constants and shape, probe expression)',
+    'translator tools/extract/hashmap.py (INIT_SIZE, watermarks, fnv_hash constants and shape, probe expression; the complete '
+    'inventory of hashmap.c: twelve signatures, four macros, no other file-scope text; rehash() recognised statement by statement '
+    'with its load test and doubling step translated, get_entry/get_or_insert_entry/match/wrappers pinned: anything else is an '
+    'ExtractError)',
+    'checklib/c17_wrap.py steers its directed histories with a python double of hashmap.c (which bucket is empty, when the next '
+    'rehash falls); the double is never an oracle, and whether the target event (a rehash that keeps the capacity while a probe '
+    'cluster with a tombstone wraps around the array end) happened is measured on the real table\'s output',
     'C int arithmetic modelled in Nat: assumes capacity*100 < 2^31 (fewer than ~10^7 live names)',
     'macro-table clients (add_macro/undef_macro/find_macro, -D/-U) are tied by running the real chibicc -E on generated '
     'define/undef histories against the abstract dictionary',
@@ -138,7 +144,18 @@ def check_history(ctx, ops):
     return None
 
 def shrink(ctx, ops):
+    """chunk removal (halving chunk sizes) first, then one operation at a time"""
     ops = list(ops)
+    chunk = max(1, len(ops) // 2)
+    while chunk >= 2:
+        i = 0
+        while i < len(ops):
+            cand = ops[:i] + ops[i + chunk:]
+            if cand and check_history(ctx, cand):
+                ops = cand
+            else:
+                i += chunk
+        chunk //= 2
     changed = True
     while changed:
         changed = False
@@ -171,6 +188,8 @@ def gen_histories(ctx, consts):
             hs.append(('corpus:' + fn, ops))
     a, b, c = same[0], same[1], same[2]
     hs.append(('tomb-dup', [('put', a, 1), ('put', b, 2), ('del', a), ('put', b, 3), ('del', b), ('get', b), ('get', a)]))
+    # directed: probe clusters wrapping around the array end, tombstones inside, through same-capacity rehashes (c17_wrap)
+    hs += c17_wrap.wrap_histories(ctx, consts)
     # exhaustive short histories over colliding keys
     keys = [a, b, c, adj[0]]
     alphabet = []
@@ -312,6 +331,14 @@ def correspond(ctx, corr):
                  'paths and to the 70% watermark; the suite history.  Each is run on the real hashmap.c (in-process, ASan/UBSan) '
                  'and on the Lean model, states compared bucket by bucket after every op, and gets compared with the abstract '
                  'dictionary.  non-trivial = the run produced a tombstone or grew the table; distinct = by history text.  '
+                 'Directed (c17_wrap): names chosen by their real fnv_hash so that a probe cluster wraps around the end of the bucket '
+                 'array at 16, 32 and 64 buckets (7 fixed cluster shapes + seeded random ones), members deleted to leave tombstones inside '
+                 'the cluster, then define/undefine churn over distinct names landing in empty buckets until a put rehashes WITHOUT growing, '
+                 'every member looked up after every operation, survivors redefined, one undefined, a second purge; the same shapes with '
+                 'rehash() called directly; all put/del histories of length L over 3-4 names at the array end followed by rehash(); '
+                 'the events are counted on the real table\'s output (rehash_events_on_real_table) and required >= 1 at each capacity.  '
+                 'The same cluster shapes as #define/#undef histories (names with fnv_hash mod 2^14 at the array end for every capacity '
+                 'the macro table can have, 700 churn cycles with #ifdef probes) through chibicc -E against gcc -E.  '
                  'Plus #define/#undef/-D/-U histories through chibicc -E.  Plus histories of byte-string keys passed by the three '
                  'client conventions (token span with arbitrary following bytes, strndup+strlen, existing C string; families: prefix '
                  'chains, one-character names, 255/256/4000-byte names, UTF-8 and raw bytes >= 0x80, keywords and near-keywords, embedded '
@@ -339,23 +366,23 @@ def correspond(ctx, corr):
             out.append(cur)
         return out
     si, sm = split(impl), split(model)
+    events = {}
     for i, (tag, ops) in enumerate(index):
         corr.evaluations += 1
         corr.count(tag.split(':')[0])
         li = si[i] if i < len(si) else ['<missing>']
         lm = sm[i] if i < len(sm) else ['<missing>']
+        c17_wrap.count_events(li, consts, events)
         key = hashlib.sha1(fmt(ops).encode()).hexdigest()
         if nontrivial(li):
             corr.nontrivial.add(key)
         if li != lm:
             j = next((j for j in range(min(len(li), len(lm))) if li[j] != lm[j]), min(len(li), len(lm)))
-            corr.disagreements.append({'kind': 'hashmap state', 'history': fmt(ops[:j + 1]) if len(ops) < 400 else f'<{len(ops)} ops>',
-                                       'op_index': j, 'impl': li[j] if j < len(li) else '<end>', 'model': lm[j] if j < len(lm) else '<end>', 'tag': tag})
-            bad = check_history(ctx, ops)
-            if bad:
-                small = shrink(ctx, ops)
-                corr.violations.append({'what': bad, 'history': [list(o) for o in small], 'replay_ops': fmt(small)})
-            break
+            if len(corr.disagreements) < 3:
+                corr.disagreements.append({'kind': 'hashmap state', 'history': fmt(ops[:j + 1]) if len(ops) < 400 else f'<{len(ops)} ops>',
+                                           'op_index': j, 'impl': li[j] if j < len(li) else '<end>', 'model': lm[j] if j < len(lm) else '<end>', 'tag': tag})
+            # model and code differ on this history; whether the CODE breaks the dictionary law is decided below, on this and
+            # on every later history (a difference that is harmless here may be a lost name a few histories further on)
         want = abstract_run(ops)
         got = impl_gets(li)
         crashed = [l for l in li if l.startswith('crash')]
@@ -363,12 +390,24 @@ def correspond(ctx, corr):
             small = shrink(ctx, ops)
             corr.violations.append({'what': check_history(ctx, small), 'history': [list(o) for o in small], 'replay_ops': fmt(small)})
             break
+    # measured on the REAL table: how often a put rehashed without growing, and how often the table then held a probe
+    # cluster that wraps around the array end with a tombstone on the wrapping path (required at 16, 32 and 64 buckets)
+    corr.extra['rehash_events_on_real_table'] = dict(sorted(events.items()))
+    missing = [k for k in c17_wrap.required_events(consts) if not events.get(k)]
+    if missing and not corr.disagreements and not corr.violations:
+        corr.disagreements.append({'kind': 'coverage', 'what': 'the directed histories no longer drive the real table through a rehash that '
+                                   'keeps the capacity while a probe cluster with a tombstone wraps around the array end', 'missing_events': missing,
+                                   'events': dict(sorted(events.items()))})
     corr.exhaustive = False
     corr.extra['exhaustive_subspace'] = f"all put/del histories of length {5 if not ctx.thorough else 6} over {3 if not ctx.thorough else 4} colliding keys"
     corr.sample({'history': fmt(index[1][1]).split('\n')[:8], 'impl_last_state': si[1][-3] if len(si) > 1 and len(si[1]) > 2 else None})
     if corr.violations:
         return
     macro_histories(ctx, corr, consts)
+    if corr.violations:
+        return
+    # names at the END of the macro table (by real hash), tombstone inside the cluster, churn through several purges; gcc -E as reference
+    c17_wrap.macro_wrap_leg(ctx, corr, consts)
     if corr.violations:
         return
     # the clients' key conventions on the real wrappers (gcc+ASan build and chibicc-built stage-2 build) against the model
@@ -412,6 +451,17 @@ def search(ctx, broken, corr):
         if cur and any(x.startswith('crash') for x in cur) and i < len(batch):
             small = shrink(ctx, batch[i])
             return {'what': check_history(ctx, small), 'history': [list(o) for o in small], 'replay_ops': fmt(small)}
+    # wrapping clusters through same-capacity rehashes, more recipes than the standard run
+    class _More:
+        rng = ctx.rng
+        thorough = True
+    for tag, ops in c17_wrap.wrap_histories(_More, consts):
+        if tag == 'wrapexh':
+            continue
+        bad = check_history(ctx, ops)
+        if bad:
+            small = shrink(ctx, ops)
+            return {'what': check_history(ctx, small), 'history': [list(o) for o in small], 'replay_ops': fmt(small)}
     # define/undefine churn over distinct names around a small live set: tombstones must be dropped by a rehash before the
     # table runs out of empty buckets (the dual of the capacity bound, Findings C17_live_only_accounting_aborts)
     for n in (20, 40, 200, 1500):
@@ -440,6 +490,13 @@ def search(ctx, broken, corr):
 
 def replay(ctx, corr, path):
     payload = json.load(open(path))
+    if payload.get('program_kind') == 'preprocess-vs-gcc':
+        corr.evaluations = 1
+        bad = c17_wrap.pp_differs(ctx, payload.get('cmd', []), payload['program'].splitlines(), 'replay.c') is not None
+        print('replay:', 'chibicc -E still differs from gcc -E on the #define/#undef history' if bad else 'chibicc -E and gcc -E agree')
+        if bad:
+            corr.violations.append({k: v for k, v in payload.items() if k not in ('property', 'seed', 'tier')})
+        return
     if payload.get('program'):
         c17_clients.replay_program(ctx, corr, payload)
         return
@@ -480,13 +537,22 @@ MANIFEST = {
                   '(the C typing of fnv_hash and of the probe index, read from clang\'s typed AST, equals the model for all 2^64 hashes '
                   'because every reachable capacity is a power of two), C17_capacity_bound / C17_churn_bounded / C17_no_int_overflow '
                   '(capacity <= max(16, 4 * peak number of live names); the int arithmetic cannot overflow below 5.3 million live names), '
-                  'C17_hash_irrelevant.',
+                  'C17_hash_irrelevant.  rehash as an obligation of its own: C17_rehash_spec (for every well-formed table - wrapping clusters '
+                  'included - rehash does not abort and leaves a well-formed table without tombstones, with the same dictionary, used = live '
+                  'names and the capacity an independent specification prescribes: the least number of doublings that brings the load below '
+                  'LOW_WATERMARK), C17_rehash_cap_determined, C17_rehash_keeps_capacity_iff, C17_load_arithmetic_translated (the model\'s load '
+                  'tests and doubling step are the ones the translator reads from rehash()/get_or_insert_entry() on every run), '
+                  'C17_hashmap_inventory (functions, macros, call graph of hashmap.c and the statement sequence of rehash, regenerated every run).',
     'level_note': 'Trusted: Lean kernel (axioms propext, Classical.choice, Quot.sound only; audited each run), the hand model of the '
                   'probe/rehash loops (tied by state-level differential execution, which is testing), tools/extract/hashmap.py, '
                   'Nat instead of C int (capacity*100 < 2^31: proved from a bound on the number of live names, C17_no_int_overflow). '
                   'The call-site list and key provenance come from a text-level translator (cross-checked against clang\'s reference '
                   'count); immutability of key memory after insertion is assumed (supported by C17_key_memory_stable). Scope/tag/typedef/'
-                  'keyword tables are exercised through the compiler against gcc, which is testing.',
+                  'keyword tables are exercised through the compiler against gcc, which is testing.  The probe loops, match and the wrappers are '
+                  'pinned by text (any other body is a translator error); rehash is recognised statement by statement.  Directed histories '
+                  '(wrapping clusters with tombstones through same-capacity rehashes at 16/32/64 buckets, rehash() called directly in every '
+                  'state of short exhaustive histories, the same shapes through the macro table against gcc -E) are testing; the target event '
+                  'is counted on the real table and required on every run.',
     'technique': 'Lean 4 refinement proof by invariant + induction over operation lists; translator-regenerated constants; '
                  'state-level differential correspondence with the real hashmap.c',
     'design_ref': 'DESIGN.md section 6, C17',
